@@ -68,13 +68,20 @@ Definition event_thread (e : mev) : option thread :=
 Definition run_start_thread : thread := mkT 0 empty (map KS run_tracked).
 
 (** ================================================================== what they compute *)
-Lemma api_forward : forall sh c th, api_thread c = Some th -> mem (c_trace c, c_prompt c) (h_open sh) = true ->
+Lemma api_forward : forall sh c th, api_thread c = Some th -> h_bound sh = true -> h_sentinel sh = false ->
+  mem (c_trace c, c_prompt c) (h_open sh) = true ->
   resume FUEL sh th = RDone (hset_in sh (h_in sh ++ [(h_nsent sh, c)]) (S (h_nsent sh))) VNone [ISent (h_nsent sh)].
-Proof. intros sh [t p x] th H E. inversion H; subst. cbn [c_trace c_prompt] in E. exec ltac:(rewrite ?E). Qed.
+Proof. intros sh [t p x] th H Hb Hs E. inversion H; subst. cbn [c_trace c_prompt] in E. exec ltac:(rewrite ?E, ?Hb, ?Hs). Qed.
 
-Lemma api_drop : forall sh c th, api_thread c = Some th -> mem (c_trace c, c_prompt c) (h_open sh) = false ->
+Lemma api_drop : forall sh c th, api_thread c = Some th -> h_bound sh = true ->
+  mem (c_trace c, c_prompt c) (h_open sh) = false ->
   resume FUEL sh th = RDone sh VNone [].
-Proof. intros sh [t p x] th H E. inversion H; subst. cbn [c_trace c_prompt] in E. exec ltac:(rewrite ?E). Qed.
+Proof. intros sh [t p x] th H Hb E. inversion H; subst. cbn [c_trace c_prompt] in E. exec ltac:(rewrite ?E, ?Hb). Qed.
+
+(** before the first run context.send_command is None: `assert context.send_command` raises *)
+Lemma api_unbound : forall sh c th, api_thread c = Some th -> h_bound sh = false ->
+  resume FUEL sh th = RDied sh XAssertion [].
+Proof. intros sh [t p x] th H Hb. inversion H; subst. exec ltac:(rewrite ?Hb). Qed.
 
 Lemma see_start : forall sh t n th, event_thread (MStart t n) = Some th ->
   resume FUEL sh th = RDone (hset_opens sh ((t, n) :: h_open sh)) VNone [IHook "on_start_prompt"].
@@ -86,7 +93,8 @@ Proof. intros sh t n th H. inversion H; subst. exec idtac. Qed.
 
 (** RunSession.run up to and including the spawn: a new queue_in, the sender bound to it, the set emptied *)
 Lemma run_start_exec : forall sh,
-  resume FUEL sh run_start_thread = RDone (hset_opens (hset_in sh [] (h_nsent sh)) []) VNone [].
+  resume FUEL sh run_start_thread =
+  RDone (hset_opens (hset_bound (hset_sentinel (hset_in sh [] (h_nsent sh)) false) true) []) VNone [].
 Proof. intros sh. unfold run_start_thread. cbn [map run_tracked]. exec idtac. Qed.
 
 (** the set is emptied BEFORE the child of the new run exists (no event of the new run can have been handled) *)
@@ -103,7 +111,9 @@ Proof. reflexivity. Qed.
 
 (** ================================================================== the composed system *)
 Record sist := mkSI { si_ch : ist; si_evq : list mev }.
-Definition siinit : sist := mkSI iinit [].
+(** the composed system starts inside a run: RunSession.run has been entered (the sender is bound) *)
+Definition siinit : sist :=
+  mkSI (set_sh iinit (match resume FUEL (i_sh iinit) run_start_thread with RDone sh' _ _ => sh' | _ => i_sh iinit end)) [].
 
 Definition isstep (x : sist) (l : slabel) : sist * option sout :=
   let s := si_ch x in
@@ -145,19 +155,19 @@ Definition istrace (ls : list slabel) := istrace_from siinit ls.
 Definition isfinal (ls : list slabel) := isexec_from siinit ls.
 
 Definition RS (x : sist) (y : sstate) : Prop :=
-  R (si_ch x) (ch y) /\ si_evq x = evq y /\ h_open (i_sh (si_ch x)) = mopen y.
+  R (si_ch x) (ch y) /\ si_evq x = evq y /\ h_open (i_sh (si_ch x)) = mopen y /\ h_bound (i_sh (si_ch x)) = true.
 
 (** the child-level relation does not look at open_prompts *)
 Lemma R_opens : forall s m o, R s m -> R (set_sh s (hset_opens (i_sh s) o)) m.
 Proof.
-  intros [sh rel thr live] m o [Hin Hns Hc Hk Hm Hf Hi Hl Ho Hrk Hrf]. constructor; cbn in *; auto.
+  intros [sh rel thr live] m o [Hin Hns Hc Hk Hsn Hm Hf Hi Hl Ho Hrk Hrf]. constructor; cbn in *; auto.
 Qed.
 
-Lemma send_state : forall s c, fst (istep s (Send c)) = set_sh s (hset_in (i_sh s) (h_in (i_sh s) ++ [(h_nsent (i_sh s), c)]) (S (h_nsent (i_sh s)))).
+Lemma send_state : forall s c, h_sentinel (i_sh s) = false -> fst (istep s (Send c)) = set_sh s (hset_in (i_sh s) (h_in (i_sh s) ++ [(h_nsent (i_sh s), c)]) (S (h_nsent (i_sh s)))).
 Proof.
-  intros s c. unfold istep.
+  intros s c Hs. unfold istep.
   destruct (call 0 send_command_params send_command_body [VCmd 0 c]) as [th | ] eqn:Ec; [ | cbv in Ec; discriminate Ec].
-  rewrite (send_exec (i_sh s) c th Ec). reflexivity.
+  rewrite (send_exec (i_sh s) c th Ec Hs). reflexivity.
 Qed.
 
 Definition ssome (e : slabel * sout) : slabel * option sout := (fst e, Some (snd e)).
@@ -165,38 +175,39 @@ Definition ssome (e : slabel * sout) : slabel * option sout := (fst e, Some (snd
 Lemma sstep_sim : forall x y l, RS x y ->
   RS (fst (isstep x l)) (fst (sstep y l)) /\ snd (isstep x l) = Some (snd (sstep y l)).
 Proof.
-  intros [s q] [m q' mo] l (HR & Hq & Ho). cbn in HR, Hq, Ho. subst q'.
+  intros [s q] [m q' mo] l (HR & Hq & Ho & Hb). cbn in HR, Hq, Ho, Hb. subst q'.
+  pose proof (r_sentinel _ _ HR) as Hsn.
   destruct l as [l' | | c].
   - (* the child *)
     assert (X : forall l0, (forall c, l0 <> Send c) ->
                 RS (mkSI (fst (istep s l0)) (q ++ match snd (istep s l0) with Some o => emitted l0 o | None => [] end))
                    (mkS (fst (step m l0)) (q ++ emitted l0 (snd (step m l0))) mo) /\
                 option_map SOut (snd (istep s l0)) = Some (SOut (snd (step m l0)))).
-    { intros l0 _. destruct (step_sim s m l0 HR) as (A & B & C). rewrite B. cbn. split; [ | reflexivity].
-      split; [exact A | ]. split; [reflexivity | ]. cbn. rewrite C. exact Ho. }
+    { intros l0 _. destruct (step_sim s m l0 HR) as (A & B & C & D). rewrite B. cbn. split; [ | reflexivity].
+      split; [exact A | ]. split; [reflexivity | ]. cbn. rewrite C, D. split; assumption. }
     destruct l'; cbn [isstep sstep si_ch si_evq ch evq mopen];
       try (apply X; intros c0; discriminate).
-    split; [ | reflexivity]. split; [exact HR | ]. split; [reflexivity | exact Ho].
+    split; [ | reflexivity]. split; [exact HR | ]. split; [reflexivity | split; assumption].
   - (* the main process handles an event *)
     cbn [isstep sstep si_ch si_evq ch evq mopen].
     destruct q as [ | e r].
-    + split; [ | reflexivity]. split; [exact HR | ]. split; [reflexivity | exact Ho].
+    + split; [ | reflexivity]. split; [exact HR | ]. split; [reflexivity | split; assumption].
     + destruct (event_thread e) as [th | ] eqn:Et; [ | destruct e; cbv in Et; discriminate Et].
       destruct e as [t n | t n].
       * rewrite (see_start (i_sh s) t n th Et). cbn. split; [ | reflexivity].
-        split; [apply R_opens; exact HR | ]. split; [reflexivity | ]. destruct s; cbn in *. rewrite Ho. reflexivity.
+        split; [apply R_opens; exact HR | ]. split; [reflexivity | ]. destruct s; cbn in *. rewrite Ho. split; [reflexivity | assumption].
       * rewrite (see_end (i_sh s) t n th Et). cbn. split; [ | reflexivity].
-        split; [apply R_opens; exact HR | ]. split; [reflexivity | ]. destruct s; cbn in *. rewrite Ho. reflexivity.
+        split; [apply R_opens; exact HR | ]. split; [reflexivity | ]. destruct s; cbn in *. rewrite Ho. split; [reflexivity | assumption].
   - (* an API call *)
     cbn [isstep sstep si_ch si_evq ch evq mopen].
     destruct (api_thread c) as [th | ] eqn:Et; [ | destruct c; cbv in Et; discriminate Et].
     rewrite <- Ho. destruct (mem (c_trace c, c_prompt c) (h_open (i_sh s))) eqn:Em.
-    + rewrite (api_forward (i_sh s) c th Et Em). cbn [fst snd].
+    + rewrite (api_forward (i_sh s) c th Et Hb Hsn Em). cbn [fst snd].
       split; [ | rewrite (r_nsent _ _ HR); reflexivity].
-      destruct (step_sim s m (Send c) HR) as (A & _ & C). rewrite send_state in A, C.
-      split; [exact A | ]. split; [reflexivity | ]. cbn [si_ch mopen]. rewrite C. reflexivity.
-    + rewrite (api_drop (i_sh s) c th Et Em). cbn [fst snd]. split; [ | reflexivity].
-      split; [ | split; [reflexivity | ]]; destruct s; cbn; auto.
+      destruct (step_sim s m (Send c) HR) as (A & _ & C & D). rewrite (send_state s c Hsn) in A, C, D.
+      split; [exact A | ]. split; [reflexivity | ]. cbn [si_ch mopen]. rewrite C, D. split; [reflexivity | assumption].
+    + rewrite (api_drop (i_sh s) c th Et Hb Em). cbn [fst snd]. split; [ | reflexivity].
+      split; [ | split; [reflexivity | split]]; destruct s; cbn; auto.
 Qed.
 
 Lemma ssim_from : forall ls x y, RS x y ->
@@ -209,7 +220,10 @@ Proof.
 Qed.
 
 Lemma RS_init : RS siinit sinit.
-Proof. split; [apply R_init | split; reflexivity]. Qed.
+Proof.
+  unfold siinit. rewrite run_start_exec. split; [ | repeat split].
+  constructor; try reflexivity; intros; try discriminate.
+Qed.
 
 (** THE TIE at system level *)
 Theorem ssim : forall ls, istrace ls = map ssome (strace ls) /\ RS (isfinal ls) (sfinal ls).
@@ -230,7 +244,7 @@ Theorem tie_system_same_state : forall ls,
   h_in (i_sh (si_ch (isfinal ls))) = s_in (ch (sfinal ls)) /\
   forall t, iqueue (si_ch (isfinal ls)) t = s_map (ch (sfinal ls)) t.
 Proof.
-  intros ls. destruct (ssim ls) as [_ (HR & Hq & Ho)]. repeat split; auto.
+  intros ls. destruct (ssim ls) as [_ (HR & Hq & Ho & _)]. repeat split; auto.
   - apply (r_in _ _ HR).
   - intros t. symmetry. apply (r_map _ _ HR).
 Qed.
@@ -259,7 +273,7 @@ Inductive mlabel :=
 | MRunStart            (* RunSession.run is entered (a new run of the same Nextline object) *)
 | MApi (c : cmd).      (* send_pdb_command *)
 
-Inductive mout := MSaw | MStarted | MForwarded (i : nat) | MDropped.
+Inductive mout := MSaw | MStarted | MForwarded (i : nat) | MDropped | MRaised.   (* MRaised: AssertionError, no run has started yet *)
 
 Definition mmstep (sh : shared) (l : mlabel) : shared * option mout :=
   match l with
@@ -275,6 +289,7 @@ Definition mmstep (sh : shared) (l : mlabel) : shared * option mout :=
           match resume FUEL sh th with
           | RDone sh' _ [ISent i] => (sh', Some (MForwarded i))
           | RDone sh' _ [] => (sh', Some MDropped)
+          | RDied sh' XAssertion [] => (sh', Some MRaised)
           | _ => (sh, None)
           end
       | None => (sh, None)
@@ -288,43 +303,66 @@ Definition spec_step (m : list (Z * Z)) (l : mlabel) : list (Z * Z) :=
   match l with MEv e => see m e | MRunStart => [] | MApi _ => m end.
 Definition spec_open (ls : list mlabel) : list (Z * Z) := fold_left spec_step ls [].
 
-Lemma mmstep_open : forall sh l, h_open (fst (mmstep sh l)) = spec_step (h_open sh) l /\ snd (mmstep sh l) <> None.
+Definition is_run_start (l : mlabel) : bool := match l with MRunStart => true | _ => false end.
+
+(** main-process invariant: no sentinel on the current queue_in; the sender is bound iff a run has started *)
+Definition MInv (sh : shared) (started : bool) : Prop := h_sentinel sh = false /\ h_bound sh = started.
+
+Lemma mmstep_open : forall sh l b, MInv sh b ->
+  h_open (fst (mmstep sh l)) = spec_step (h_open sh) l /\ snd (mmstep sh l) <> None /\
+  MInv (fst (mmstep sh l)) (b || is_run_start l).
 Proof.
-  intros sh l. destruct l as [e | | c]; unfold mmstep.
+  intros sh l b [Hs Hb]. destruct l as [e | | c]; unfold mmstep.
   - destruct (event_thread e) as [th | ] eqn:Et; [ | destruct e; cbv in Et; discriminate Et].
     destruct e as [t n | t n].
-    + rewrite (see_start sh t n th Et). split; [reflexivity | discriminate].
-    + rewrite (see_end sh t n th Et). split; [reflexivity | discriminate].
-  - rewrite run_start_exec. split; [reflexivity | discriminate].
+    + rewrite (see_start sh t n th Et). rewrite orb_false_r. repeat split; auto; discriminate.
+    + rewrite (see_end sh t n th Et). rewrite orb_false_r. repeat split; auto; discriminate.
+  - rewrite run_start_exec. rewrite orb_true_r. repeat split; discriminate.
   - destruct (api_thread c) as [th | ] eqn:Et; [ | destruct c; cbv in Et; discriminate Et].
-    destruct (mem (c_trace c, c_prompt c) (h_open sh)) eqn:Em.
-    + rewrite (api_forward sh c th Et Em). split; [reflexivity | discriminate].
-    + rewrite (api_drop sh c th Et Em). split; [reflexivity | discriminate].
+    rewrite orb_false_r. destruct b.
+    + destruct (mem (c_trace c, c_prompt c) (h_open sh)) eqn:Em.
+      * rewrite (api_forward sh c th Et Hb Hs Em). repeat split; auto; discriminate.
+      * rewrite (api_drop sh c th Et Hb Em). repeat split; auto; discriminate.
+    + rewrite (api_unbound sh c th Et Hb). repeat split; auto; discriminate.
 Qed.
 
 Lemma fold_snoc {A B} (f : A -> B -> A) (l : list B) (x : B) (a : A) : fold_left f (l ++ [x]) a = f (fold_left f l a) x.
 Proof. rewrite fold_left_app. reflexivity. Qed.
 
-Theorem main_open_prompts : forall ls, h_open (mmfinal ls) = spec_open ls.
+Theorem main_open_prompts : forall ls,
+  h_open (mmfinal ls) = spec_open ls /\ MInv (mmfinal ls) (existsb is_run_start ls).
 Proof.
-  induction ls as [ | l ls IH] using rev_ind; [reflexivity | ].
+  induction ls as [ | l ls IH] using rev_ind; [split; [reflexivity | split; reflexivity] | ].
+  destruct IH as [IH1 IH2].
   unfold mmfinal, spec_open. rewrite !fold_snoc. fold (mmfinal ls). fold (spec_open ls).
-  rewrite (proj1 (mmstep_open _ _)). rewrite IH. reflexivity.
+  destruct (mmstep_open (mmfinal ls) l _ IH2) as (A & _ & C). rewrite A, IH1. split; [reflexivity | ].
+  rewrite existsb_app. cbn [existsb]. rewrite orb_false_r. exact C.
 Qed.
 
-(** (3a) the guard: after ANY history of the main process, send_pdb_command puts the command on
-    queue_in iff its (trace_no, prompt_no) pair is in the set; otherwise nothing is put *)
-Theorem main_forwards_iff_member : forall ls c,
+(** (3a) the guard: after ANY history of the main process in which a run has started,
+    send_pdb_command puts the command on queue_in iff its (trace_no, prompt_no) pair is in the
+    set; otherwise nothing is put.  (Hypothesis added by the hardening round: before the first
+    run `assert context.send_command` raises -- [main_before_first_run_raises].) *)
+Theorem main_forwards_iff_member : forall ls c, existsb is_run_start ls = true ->
   let sh := mmfinal ls in
   if mem (c_trace c, c_prompt c) (spec_open ls)
   then snd (mmstep sh (MApi c)) = Some (MForwarded (h_nsent sh)) /\ h_in (fst (mmstep sh (MApi c))) = h_in sh ++ [(h_nsent sh, c)]
   else snd (mmstep sh (MApi c)) = Some MDropped /\ fst (mmstep sh (MApi c)) = sh.
 Proof.
-  intros ls c sh. rewrite <- main_open_prompts. fold sh. unfold mmstep.
+  intros ls c Hst sh. destruct (main_open_prompts ls) as [Ho [Hs Hb]]. rewrite <- Ho. fold sh in Hs, Hb |- *. rewrite Hst in Hb.
+  unfold mmstep.
   destruct (api_thread c) as [th | ] eqn:Et; [ | destruct c; cbv in Et; discriminate Et].
   destruct (mem (c_trace c, c_prompt c) (h_open sh)) eqn:Em.
-  - rewrite (api_forward sh c th Et Em). split; reflexivity.
-  - rewrite (api_drop sh c th Et Em). split; reflexivity.
+  - rewrite (api_forward sh c th Et Hb Hs Em). split; reflexivity.
+  - rewrite (api_drop sh c th Et Hb Em). split; reflexivity.
+Qed.
+
+Theorem main_before_first_run_raises : forall ls c, existsb is_run_start ls = false ->
+  snd (mmstep (mmfinal ls) (MApi c)) = Some MRaised /\ fst (mmstep (mmfinal ls) (MApi c)) = mmfinal ls.
+Proof.
+  intros ls c Hst. destruct (main_open_prompts ls) as [_ [Hs Hb]]. rewrite Hst in Hb. unfold mmstep.
+  destruct (api_thread c) as [th | ] eqn:Et; [ | destruct c; cbv in Et; discriminate Et].
+  rewrite (api_unbound _ c th Et Hb). split; reflexivity.
 Qed.
 
 (** (3b) the set holds EXACTLY the prompts started and not ended in the CURRENT run *)
@@ -379,11 +417,11 @@ Proof.
 Qed.
 
 (** (3) together: a command is forwarded iff its prompt was started and has not ended in the current run *)
-Theorem main_forwards_iff_open_in_current_run : forall ls c,
-  snd (mmstep (mmfinal ls) (MApi c)) = Some (MForwarded (h_nsent (mmfinal ls))) <-> started_not_ended ls (c_trace c) (c_prompt c).
+Theorem main_forwards_iff_open_in_current_run : forall ls c, existsb is_run_start ls = true ->
+  (snd (mmstep (mmfinal ls) (MApi c)) = Some (MForwarded (h_nsent (mmfinal ls))) <-> started_not_ended ls (c_trace c) (c_prompt c)).
 Proof.
-  intros ls c. rewrite <- spec_open_exact, <- mem_iff_in.
-  pose proof (main_forwards_iff_member ls c) as H. cbv zeta in H.
+  intros ls c Hst. rewrite <- spec_open_exact, <- mem_iff_in.
+  pose proof (main_forwards_iff_member ls c Hst) as H. cbv zeta in H.
   destruct (mem (c_trace c, c_prompt c) (spec_open ls)); destruct H as [H1 H2]; rewrite H1; split; intros E; auto; discriminate E.
 Qed.
 
@@ -392,12 +430,15 @@ Corollary main_stale_pair_dropped : forall ls1 ls2 c,
   ~ In (MEv (MStart (c_trace c) (c_prompt c))) ls2 ->
   snd (mmstep (mmfinal (ls1 ++ MRunStart :: ls2)) (MApi c)) = Some MDropped.
 Proof.
-  intros ls1 ls2 c Hn. pose proof (main_forwards_iff_member (ls1 ++ MRunStart :: ls2) c) as H. cbv zeta in H.
+  intros ls1 ls2 c Hn.
+  assert (Hst : existsb is_run_start (ls1 ++ MRunStart :: ls2) = true).
+  { rewrite existsb_app. cbn. rewrite orb_true_r. reflexivity. }
+  pose proof (main_forwards_iff_member (ls1 ++ MRunStart :: ls2) c Hst) as H. cbv zeta in H.
   destruct (mem (c_trace c, c_prompt c) (spec_open (ls1 ++ MRunStart :: ls2))) eqn:Em; [ | apply H].
   exfalso. apply mem_iff_in, spec_open_exact in Em. destruct Em as (pre & post & E & N1 & N2).
   (* the MStart lies in ls2, or MRunStart lies in post *)
   assert (X : In (MEv (MStart (c_trace c) (c_prompt c))) ls2 \/ In MRunStart post).
-  { clear N2 Hn H. revert pre E. induction ls1 as [ | a ls1 IHl]; intros pre E; cbn in E.
+  { clear N2 Hn H Hst. revert pre E. induction ls1 as [ | a ls1 IHl]; intros pre E; cbn in E.
     - destruct pre as [ | b pre]; cbn in E; [discriminate E | ]. inversion E; subst. left. apply in_or_app. right. left. reflexivity.
     - destruct pre as [ | b pre]; cbn in E.
       + inversion E; subst. right. apply in_or_app. right. left. reflexivity.
